@@ -40,6 +40,7 @@ fn dispatch(op: &str, args: &[&str]) -> String {
         "tamper" => ntlm::op_tamper(args),
         "negotiate" => ntlmauth::op_negotiate(args),
         "auth" => ntlmauth::op_auth(args),
+        "auth2" => ntlmauth::op_auth2(args),
         "unicode" | "ntowfv2" | "lmowfv2" | "ntowfv2h" | "cresp" | "authmsg" => ntlmauth::op_prim(op, args),
         "bmp" => codec::op_bmp(args),
         "ord16" => codec::op_ord16(args),
